@@ -9,6 +9,7 @@ import (
 	"fmt"
 	"os"
 	"strconv"
+	"strings"
 	"time"
 )
 
@@ -170,12 +171,22 @@ func BytesEq(a, b []byte) bool {
 }
 func StrEq(a, b string) bool { return a == b }
 
-func Reach(label string)                   {}
-func Observe(label string, v uint64)       {}
-func Symbolic() bool                       { return false }
-func Native() bool                         { return true }
-func Tier() int                            { load(); return tier }
-func Param(name string, def int) int       { return def }
+func Reach(label string)             {}
+func Observe(label string, v uint64) {}
+func Symbolic() bool                 { return false }
+func Native() bool                   { return true }
+func Tier() int                      { load(); return tier }
+func Param(name string, def int) int {
+	for _, kv := range strings.Split(os.Getenv("VERIF_PARAMS"), ",") {
+		p := strings.SplitN(kv, "=", 2)
+		if len(p) == 2 && p[0] == name {
+			if v, err := strconv.Atoi(p[1]); err == nil {
+				return v
+			}
+		}
+	}
+	return def
+}
 func SetPreemptBound(n int)                {}
 func PoolMode(m int)                       {}
 func Adversary(on bool)                    {}
